@@ -141,8 +141,14 @@ def snapshot_run(run, rng, seed, flavour, conc, fail, quick, big=False):
         # sequential reference: concurrency 1, no perturbation
         ref_world = harness.World(store=membackend.Store(dict(store.objs)), concurrent=1, flavour=flavour)
         ref_world.users = w.users
-        ref = ref_world.snapshot('a', [d / 'src'])
-        ctl = sched.Controller(perturb_seed=seed, piece=rng.choice([None, 48, 100]))
+        piece = rng.choice([None, 48, 100])
+        # the reference reads the files in the same pieces (chunks in the tail zone may legitimately depend on the piece size, C10)
+        install(sched.Controller(piece=piece))
+        try:
+            ref = ref_world.snapshot('a', [d / 'src'])
+        finally:
+            uninstall()
+        ctl = sched.Controller(perturb_seed=seed, piece=piece)
         slots = {}
         be = instrument(w.backend(gate=LoggingGate(ctl, random.Random(seed), fail_at=fail)), ctl)
         install(ctl)
